@@ -224,3 +224,37 @@ func zzH10f() {
 		zzAssert(errors.Is(err, ErrLinkNotReady), "no-link-local-is-link-not-ready")
 	}
 }
+
+// net.InterfaceByName is the environment: success, package net's "no such
+// network interface" error (exactly as package net builds it), another
+// OpError, or an opaque error.
+var zzIfByNameKind int
+
+func zzStub_net_InterfaceByName(name string) (*net.Interface, error) {
+	switch zzIfByNameKind {
+	case 0:
+		return &net.Interface{Index: 2, Name: name}, nil
+	case 1:
+		return nil, &net.OpError{Op: "route", Net: "ip+net", Err: errors.New("no such network interface")}
+	case 2:
+		return nil, &net.OpError{Op: "route", Net: "ip+net", Err: errors.New("invalid network interface name")}
+	default:
+		return nil, zzErrOpaque
+	}
+}
+
+// H10g: lookupInterface classifies a missing interface as link-not-ready
+// (recoverable: the dialer waits for it to appear) and every other lookup
+// failure as an ordinary, non-recoverable error.
+func zzH10g() {
+	zzIfByNameKind = zzNondetChoice("lookup-outcome", 4)
+	ifi, err := lookupInterface("eth0")
+	switch zzIfByNameKind {
+	case 0:
+		zzAssert(err == nil && ifi != nil && ifi.Name == "eth0" && ifi.Index == 2, "found-interface-returned")
+	case 1:
+		zzAssert(ifi == nil && err != nil && errors.Is(err, ErrLinkNotReady), "missing-interface-is-link-not-ready")
+	default:
+		zzAssert(ifi == nil && err != nil && !errors.Is(err, ErrLinkNotReady), "other-lookup-failure-is-not-link-not-ready")
+	}
+}
